@@ -8,8 +8,9 @@ import os
 SP_ANY = os.environ.get('VERIF_SP_STRICT') != '1'
 # row switches were the open finding F-ROWSWITCH (fixed in /repo); VERIF_ROWSWITCH_STRICT=1 keeps them out again
 ROWSWITCH_STRICT = os.environ.get('VERIF_ROWSWITCH_STRICT') == '1'
-# re-creating a key as another class of its hierarchy within one transaction was the open finding F-CLASSSWITCH-TX
-CLASSSWITCH_STRICT = os.environ.get('VERIF_CLASSSWITCH_STRICT') == '1'
+# re-creating a key as another class of its hierarchy within one transaction is the open finding F-CLASSSWITCH-TX
+# (kept out of the random stream; VERIF_CLASSSWITCH_ANY=1 lets the generators produce it)
+CLASSSWITCH_STRICT = os.environ.get('VERIF_CLASSSWITCH_ANY') != '1'
 
 
 def entity_info(spec):
